@@ -172,9 +172,9 @@ PROPS["C10"] = dict(
           "GetAddrs skips unknown protocols. http-sender: Send/SendJson to a local server, body decoded and compared with the message with "
           "/p2p/<publisher> encapsulated on every decodable address (unknown-protocol ones dropped), sender-level extra data; hostile: seeded "
           "mutants incl. CBOR length-header tampering up to 2^63: error or a message whose re-encoding decodes equal; TotalAlloc <= 4*len+3MiB; "
-          "no panic. distinct_nontrivial = distinct (address count, OrigPeer, big extra, CID version, unknown-proto present) tuples, sender "
+          "no panic. Sub-check crafted-lengths assembles messages by hand with each field's declared length at, just over and far over its cap, the declared bytes present or missing: within caps and complete decodes and re-encodes; over a cap is rejected without allocating for the declared length. distinct_nontrivial = distinct (address count, OrigPeer, big extra, CID version, unknown-proto present) tuples, sender "
           "configurations and (mutation kind, decoded shape) among ACCEPTED hostile inputs."),
-    floors={"quick": {"hostile_accepted": 300, "hostile_rejected": 10000, "msgs_with_unknown_protocol_addr": 500, "sent_json": 100, "sent_cbor": 100}},
+    floors={"quick": {"crafted_cases": 50, "crafted_over_cap": 20, "crafted_within_caps_decoded": 12, "hostile_accepted": 300, "hostile_rejected": 10000, "msgs_with_unknown_protocol_addr": 500, "sent_json": 100, "sent_cbor": 100}},
     max_counters=["max_alloc_per_case"],
     level_text=("Exploration: the real encoder, decoder and HTTP sender are run on seeded messages and on tens of thousands of mutated encodings; "
                 "equality, wire content, panic-freedom and an allocation bound derived from the decoder's field caps are the oracles."),
@@ -215,9 +215,9 @@ PROPS["C03"] = dict(
           "identical mutants (same CID, topic, parsed key, signature) skipped. end-to-end: a real Subscriber syncs a real Publisher behind a "
           "front that replaces the head response (plain HTTP and libp2p-HTTP discovery mounts; publisher ID given as AddrInfo.ID or only as "
           "/p2p/<id> in the address): rejected, no block request after the head request, no hook, no store write, latest-synced unchanged; "
-          "genuine heads sync; and every head the publisher serves validates to its own ID, root and topic. distinct_nontrivial = distinct "
+          "genuine heads sync; and every head the publisher serves validates to its own ID, root and topic. End-to-end cases also ask for another identity than the one named by a /p2p/ component of the address, and for another identity at an address at which the subscriber has synced the real publisher before. Signature re-encodings (ECDSA s negated, a byte appended, the last byte dropped) are tampers of their own, classified per key type. distinct_nontrivial = distinct "
           "(key type, alteration, topic present / mount / id placement) tuples."),
-    floors={"quick": {"e2e_asked_for_other_identity_than_in_address": 20, "e2e_rejections_expected": 120, "e2e_genuine_syncs": 10, "bytes_decodable_rejected": 2000, "publisher_heads_checked": 150, "e2e_mode_libp2phttp-discovery": 20, "e2e_replays_after_genuine_sync": 5, "setroot_then_head_checks": 200}},
+    floors={"quick": {"e2e_asked_for_other_identity_after_good_sync": 12, "e2e_asked_for_other_identity_than_in_address": 20, "e2e_rejections_expected": 120, "e2e_genuine_syncs": 10, "bytes_decodable_rejected": 2000, "publisher_heads_checked": 150, "e2e_mode_libp2phttp-discovery": 20, "e2e_replays_after_genuine_sync": 5, "setroot_then_head_checks": 200}},
     level_text=("Exploration: real signing, encoding, head queries and syncs; every listed alteration kind and every byte of sampled encodings is "
                 "tried for every key type, and the end-to-end effect (no request after the head, no latest-synced change) is observed at a "
                 "logging publisher front."),
@@ -309,8 +309,8 @@ PROPS["C02"] = dict(
           "(only the first corrupts). Three phases per case against one store: corrupted sync, honest retry, resync with another position "
           "corrupted. After EVERY sync every key/value of the destination store is re-hashed with the CID's own function and length, hooks must "
           "name only blocks stored intact, the corrupted sync must fail iff the corrupted response was actually consumed, and the store after "
-          "the honest retry must equal the publisher's. Corruption kind cut-mid-body announces the full length and cuts the connection after k bytes (a read error mid-body); the next answer for that CID then carries only the remainder. Sub-check failing-store: the LOCAL store fails one chosen block write after k bytes and still commits what it has; the sync must fail, nothing that does not hash to its CID may be stored or reported, and the retry with a working store must complete. distinct_nontrivial = distinct (hash prefix, corruption, position, mode) tuples."),
-    floors={"quick": {"remainder_only_answers": 60, "store_write_faults_hit": 150, "corrupted_response_consumed": 1500, "audited_store_entries": 5000, "two_address_cases": 200, "big_block_cases": 40, "hash_identity": 100, "hash_sha2-256/16": 100}},
+          "the honest retry must equal the publisher's. Corruption kind cut-mid-body announces the full length and cuts the connection after k bytes (a read error mid-body); the next answer for that CID then carries only the remainder. Sub-check failing-store: the LOCAL store fails one chosen block write after k bytes and still commits what it has; the sync must fail, nothing that does not hash to its CID may be stored or reported, and the retry with a working store must complete. A third of the corrupt-sync cases mark the subscriber's own link system TrustedStorage; corruption kinds append-whitespace / prepend-whitespace add what a text-oriented host may add around a JSON document. distinct_nontrivial = distinct (hash prefix, corruption, position, mode) tuples."),
+    floors={"quick": {"mut_append-whitespace": 40, "subscriber_link_system_marked_trusted": 200, "remainder_only_answers": 60, "store_write_faults_hit": 150, "corrupted_response_consumed": 1500, "audited_store_entries": 5000, "two_address_cases": 200, "big_block_cases": 40, "hash_identity": 100, "hash_sha2-256/16": 100}},
     level_text=("Fault enumeration over (hash prefix x corruption kind x request position x mode), sampled with a seeded PRNG: the real "
                 "subscriber syncs from a real publisher whose responses are corrupted in flight; the destination store is audited entry by entry."),
     level_note="Trusted: go-multihash for the audit re-hash (same library the code under test uses; an independent implementation is not available offline).",
@@ -407,9 +407,9 @@ PROPS["C08"] = dict(
           "advertisement after the baseline is reported exactly once; no block requested twice; latest-synced == last announced head or an error "
           "notification naming that head. Half of the announce-only runs answer a share of first block requests with 500, so announce-triggered "
           "syncs fail while other publishers wait for a slot; the number of announce-triggered syncs between sync.enter and sync.exit is bounded "
-          "by the maximum as well; the pending announcement is never taken while another sync of that publisher is between enter and exit. distinct_nontrivial = run configurations x (coalescing seen, spawn-while-running seen); distinct interleaving "
+          "by the maximum as well; the pending announcement is never taken while another sync of that publisher is between enter and exit. A quarter of the schedules use an idle-handler TTL of 0.3-3 ms with requests held at the publisher (the cleaner runs many times during every sync); the mixed runs also run SyncEntries with a scoped hook on the same publishers, whose blocks must all reach that hook. distinct_nontrivial = run configurations x (coalescing seen, spawn-while-running seen); distinct interleaving "
           "signatures are counted separately."),
-    floors={"quick": {"coalesced_announcements": 100, "spawn_while_previous_sync_running": 20, "syncs_observed": 300, "runs_reaching_the_concurrency_limit": 3, "runs_with_last_known_baseline": 10, "explicit_syncs_with_expiring_context": 10, "runs_with_failing_syncs": 15, "failed_announce_syncs": 50}},
+    floors={"quick": {"entries_syncs_of_the_same_publishers": 120, "runs_with_idle_handler_ttl_shorter_than_a_sync": 25, "coalesced_announcements": 100, "spawn_while_previous_sync_running": 20, "syncs_observed": 300, "runs_reaching_the_concurrency_limit": 3, "runs_with_last_known_baseline": 10, "explicit_syncs_with_expiring_context": 10, "runs_with_failing_syncs": 15, "failed_announce_syncs": 50}},
     max_counters=["max_concurrent_announce_syncs", "max_announce_syncs_between_start_and_end"],
     watchdog_s={"quick": 900, "thorough": 7200},
     level_text=("Exploration over schedules: many short seeded runs with injected delays; every run's full event log is checked offline for mutual "
@@ -437,8 +437,8 @@ PROPS["C14"] = dict(
           "order reaches the fast listener out of order. Failing announce syncs are held at the publisher so that newer announcements queue "
           "behind them; every handling goroutine that ran a sync must have sent exactly one notification, and explicit syncs that ran and "
           "returned success must equal the notifications sent from explicit-sync goroutines. "
-          "distinct_nontrivial = distinct run configurations."),
-    floors={"quick": {"must_deliveries_checked": 600, "emitted_events": 500, "long_runs_with_stalled_listener": 5, "listener_stalled": 10, "listener_cancel-then-read": 10, "listener_cancel-after-n": 10, "announce_triggered_syncs_checked": 200, "held_notification_overlap_runs": 12, "explicit_syncs_completed": 300}},
+          "One explicit sync in four is a resync or carries an explicit older stop CID (the head recorded as latest then does not change, the notification is due all the same). distinct_nontrivial = distinct run configurations."),
+    floors={"quick": {"explicit_resyncs": 100, "explicit_syncs_with_stop_cid": 80, "must_deliveries_checked": 600, "emitted_events": 500, "long_runs_with_stalled_listener": 5, "listener_stalled": 10, "listener_cancel-then-read": 10, "listener_cancel-after-n": 10, "announce_triggered_syncs_checked": 200, "held_notification_overlap_runs": 12, "explicit_syncs_completed": 300}},
     watchdog_s={"quick": 900, "thorough": 7200},
     level_text=("Exploration over schedules: each run's listeners are compared with the emission log; delivery obligations are derived from logical "
                 "timestamps so that only what the statement promises is demanded."),
@@ -460,8 +460,8 @@ PROPS["C15"] = dict(
           "goroutine exited; no hook call, store write, event emission or forwarding has a logical timestamp after the first Close return; all "
           "listener channels are closed; every entry point (SyncAdChain, SyncEntries, SyncOneEntry, SyncHAMTEntries, Announce, OnSyncFinished, "
           "cancel functions, Get/SetLatestSync, RemoveHandler, HttpPeerStore, Close) returns on the closed subscriber (hang rule); no goroutine "
-          "with a dagsync/announce frame remains. distinct_nontrivial = distinct (sync kind, close point, closers, racing activity) tuples."),
-    floors={"quick": {"close_with_second_explicit_sync_queued": 15, "post_close_calls": 800, "close_point_reached_sync.enter": 5, "close_point_reached_front": 5, "close_point_reached_pending.taken": 2, "closers_4": 5, "close_with_sync_waiting_for_async_slot": 1}},
+          "with a dagsync/announce frame remains. A third of the explicit cases queue a second explicit sync of the same publisher behind the gated one; the goroutines net/http keeps per client connection are counted before the subscriber exists and after Close. distinct_nontrivial = distinct (sync kind, close point, closers, racing activity) tuples."),
+    floors={"quick": {"http_client_connections_checked": 150, "close_with_second_explicit_sync_queued": 15, "post_close_calls": 800, "close_point_reached_sync.enter": 5, "close_point_reached_front": 5, "close_point_reached_pending.taken": 2, "closers_4": 5, "close_with_sync_waiting_for_async_slot": 1}},
     watchdog_s={"quick": 900, "thorough": 7200},
     level_text=("Exploration over schedules: Close is started at every instrumented point of a running sync; what happens after its first return "
                 "is read from the event log and goroutine dumps; blocking is decided by the hang rule."),
